@@ -367,6 +367,10 @@ class TrajectoryConstraintsRemover(engines.engine.Engine, CompilerMixin):
         monitoring_atoms_counter = 0
         initial_state_prime = []
         for constr in C:
+            if constr.is_false():
+                raise UPProblemDefinitionError(
+                    "PROBLEM NOT SOLVABLE: a trajectory constraint is trivially false"
+                )
             if constr.is_always():
                 if constr.args[0].substitute(I).simplify().is_false():
                     raise UPProblemDefinitionError(
